@@ -344,6 +344,7 @@ type Sim struct {
 	lastCallCtx  context.Context
 	degraded     bool // a SHUTDOWN for a live pool connection was delivered: crash/progress oracles only
 	overlap      bool // the operation just started was left running (FlagOverlap): no quiescence checks before the next one
+	overlapOpen  bool // operations were left running and the one that ends the overlap has not been executed yet
 	resolverSent bool
 	keySeq       uint64
 	conc         bool // currently executing concurrently (burst); false in serial plans and after the burst
@@ -633,6 +634,16 @@ func (s *Sim) run() {
 		s.res.Harness = "marshal config: " + err.Error()
 		return
 	}
+	if v := sameLengthVariant(js); v != nil && len(js)%2 == 0 {
+		// The caller's buffer held another configuration text of the same length a
+		// moment ago (a reused read buffer) and went through the parser with it:
+		// the text it holds NOW is what counts.
+		buf := append([]byte(nil), v...)
+		_, _ = builder.(balancer.ConfigParser).ParseConfig(buf)
+		copy(buf, js)
+		js = buf
+		s.res.Count("fault:config_text_parsed_from_a_reused_buffer", 1)
+	}
 	parsed, err := builder.(balancer.ConfigParser).ParseConfig(js)
 	if err != nil {
 		s.vio("C17", "parse-rejects-wellformed", "", fmt.Sprintf("ParseConfig rejected %s: %v", js, err))
@@ -703,8 +714,15 @@ func (s *Sim) run() {
 		if s.overlap {
 			// not quiescent on purpose: the next operation finishes both
 			s.overlap = false
+			s.overlapOpen = true
 			s.drain()
 			continue
+		}
+		if s.overlapOpen {
+			// (the connection report may have turned out to be no event at all:
+			// whatever was left running runs to the end before anything is judged)
+			s.overlapOpen = false
+			s.k.Quiesce()
 		}
 		s.afterOp()
 	}
@@ -1116,6 +1134,31 @@ func (s *Sim) stepsAfter(o Op) {
 	} else {
 		s.k.Quiesce()
 	}
+}
+
+// sameLengthVariant returns js with the first digit of a number (outside any
+// string) changed: another configuration text of exactly the same length.
+//
+//go:norace
+func sameLengthVariant(js []byte) []byte {
+	inStr := false
+	for i := 0; i < len(js); i++ {
+		c := js[i]
+		switch {
+		case c == '\\' && inStr:
+			i++
+		case c == '"':
+			inStr = !inStr
+		case !inStr && c >= '0' && c <= '9':
+			v := append([]byte(nil), js...)
+			v[i] = '0' + (c-'0')^1
+			if v[i] == '0' && i+1 < len(js) && js[i+1] >= '0' && js[i+1] <= '9' {
+				v[i] = '2' + (c-'0')%2 // no leading zero
+			}
+			return v
+		}
+	}
+	return nil
 }
 
 // overlapsConn: operation i is followed - after more operations flagged
@@ -1666,7 +1709,11 @@ func (s *Sim) callBody(c *Call) {
 	if c.NilMsg {
 		// request shapes no key can be read from: untyped nil, typed nil pointer,
 		// values that are not messages at all
-		switch c.ID % 6 {
+		switch c.ID % 7 {
+		case 6:
+			// a repeated message field with a nil element (and nothing else to read
+			// a key from): the walk along "items.name" meets a nil pointer
+			req = &Msg{Num: 7, Items: []*Item{nil, {Name: "after-nil"}, nil}}
 		case 5:
 			// the key field is promoted from an embedded struct pointer that is nil
 			req = &MsgE{Num: 7}
@@ -1706,7 +1753,7 @@ func (s *Sim) callBody(c *Call) {
 			return &fakeStream{ctx: ctx}, nil
 		}
 		note := s.guard(func() {
-			cs, err := grpcgcp.GCPStreamClientInterceptor(c.ctx, &grpc.StreamDesc{ClientStreams: true}, nil, c.MethodName, streamer)
+			cs, err := grpcgcp.GCPStreamClientInterceptor(c.ctx, &grpc.StreamDesc{ClientStreams: c.ID%4 < 2, ServerStreams: c.ID%2 == 1}, nil, c.MethodName, streamer)
 			if err == nil {
 				err = cs.SendMsg(req)
 			}
